@@ -11,6 +11,7 @@
 #include "xfrm/compress.h"
 #include "xfrm/wrap.h"
 
+#include <stdbool.h>
 #include <string.h>
 #include <stdlib.h>
 #include <assert.h>
@@ -27,6 +28,7 @@ typedef struct istream_xfrm_t {
 
 	size_t buffer_offset;
 	size_t buffer_used;
+	bool in_member;
 	sqfs_u8 uncompressed[BUFSZ];
 } istream_xfrm_t;
 
@@ -67,14 +69,25 @@ static int precache(sqfs_istream_t *base)
 		if (ret == XFRM_STREAM_ERROR)
 			return SQFS_ERROR_COMPRESSOR;
 
+		/* remember whether we stopped inside a compressed stream */
+		if (ret == XFRM_STREAM_END) {
+			xfrm->in_member = false;
+		} else if (in_off > 0 || out_off > xfrm->buffer_used) {
+			xfrm->in_member = true;
+		}
+
 		xfrm->buffer_used = out_off;
 		xfrm->wrapped->advance_buffer(xfrm->wrapped, in_off);
 
 		if (ret == XFRM_STREAM_BUFFER_FULL || out_off >= BUFSZ)
 			break;
 
-		if (mode == XFRM_STREAM_FLUSH_FULL)
+		if (mode == XFRM_STREAM_FLUSH_FULL) {
+			/* the input ended in the middle of a stream */
+			if (xfrm->in_member && in_off == avail)
+				return SQFS_ERROR_CORRUPTED;
 			break;
+		}
 	}
 
 	return 0;
